@@ -233,6 +233,7 @@ FREE_CBS = ('S', 'COMMENT', 'unknownrule')
 
 def r09c(chk, rid='R09.c'):
     chk.rule(rid, 'parse-time ordering levels, decided by evaluation: CSSStyleSheet._setCssText is evaluated on its syntax tree up to its call of _parse (rule classes, tokenizer and insertRule are model stubs); there every production callback of the dispatch table - resolved from the source, whatever it is called - is run for each level 0..3 and each kind of statement token: @charset is accepted at level 0 only, @import up to 1, @namespace and @variables up to 2, body rules always; an accepted rule sets the level to its rank, a rejected one and every comment, white space, unknown or misplaced margin at-rule leaves it where it is (at least 1); parsing starts at level 0')
+    chk.assume('R09.c: rule classes, the tokenizer and insertRule are stubs; every rule parses as well-formed (an ill-formed statement is consumed and dropped by the same callbacks: R04.b)')
     from sa.absint import Evaluator, Obj, Raised, Record
 
     m = chk.repo.mod(SHEET)
@@ -622,6 +623,7 @@ _R09G = None
 
 def r09g(chk, rid='R09.g'):
     chk.rule(rid, 'inductive step of the ordering clause, by evaluation: CSSStyleSheet.insertRule is evaluated on its syntax tree (helpers resolved in the class; namespace clean-up, variable update and logging are model stubs in log mode) from every rule list of up to two rules (thorough tier: three) over eight rule kinds that satisfies the order, for every kind of new rule, every index and ordered add: afterwards the list still satisfies the order, the new rule is in the list iff it names the sheet as parent, nothing else was removed or re-parented, an accepted positional insert lands at the requested index, and an error is reported only when nothing was inserted')
+    chk.assume('R09.g: insertRule looks at rules only through their kind, prefix/URI and position; lists of up to two (thorough: three) rules over eight kinds exercise every scan (before the index, after the index, last of its kind, first stop); namespace clean-up, variable update and logging are stubs; log mode')
     import itertools
     import multiprocessing as mp
 
